@@ -280,8 +280,97 @@ def popped_keys(ctx, func, through_calls=True, _seen=None):
     return D, U
 
 
+def _is_len1_test(test):
+    """``len(<name>) == 1`` -> the name, else None."""
+    if isinstance(test, ast.Compare) and len(test.ops) == 1 and isinstance(test.ops[0], ast.Eq) \
+            and isinstance(test.left, ast.Call) and dotted(test.left.func) == "len" \
+            and len(test.left.args) == 1 and isinstance(test.left.args[0], ast.Name) \
+            and isinstance(test.comparators[0], ast.Constant) and test.comparators[0].value == 1:
+        return test.left.args[0].id
+    return None
+
+
+def leaf_status(f):
+    """How a cached getter behaves on a leaf, from its top-level statements:
+    'const' (``if len(node) == 1: return <literal>``), 'na' (subscripts
+    ``self.children[node]`` before any leaf test: never cached on a leaf) or 'dep'
+    (a leaf value is computed, so it can go stale)."""
+    for st in f.node.body:
+        if isinstance(st, ast.If) and _is_len1_test(st.test):
+            if len(st.body) == 1 and isinstance(st.body[0], ast.Return):
+                v = st.body[0].value
+                if isinstance(v, ast.Constant) or (isinstance(v, (ast.Dict, ast.Tuple, ast.List)) and
+                                                   not (getattr(v, "keys", None) or getattr(v, "elts", None))):
+                    return "const"
+            return "dep"
+        for n in ast.walk(st):
+            if isinstance(n, ast.Subscript) and isinstance(n.value, ast.Attribute) and \
+                    n.value.attr == "children":
+                return "na"
+    return "dep"
+
+
+def _whole_reset(ctx, func):
+    """func clears or deletes a whole info entry (``X.info[n].clear()``, ``del X.info[n]``,
+    ``X.info.pop(n)``)."""
+    for n in walk_local(func.node):
+        if isinstance(n, ast.Call) and isinstance(n.func, ast.Attribute):
+            if n.func.attr == "clear" and C.is_info_entry(n.func.value, C.info_aliases(func)):
+                return True
+            if n.func.attr == "pop" and isinstance(n.func.value, ast.Attribute) and \
+                    n.func.value.attr == "info":
+                return True
+        if isinstance(n, ast.Delete):
+            for t in n.targets:
+                if C.info_entry_node_expr(t) is not None:
+                    return True
+    return False
+
+
+def _leaf_branch_instances(ctx, r, ri, g, sl):
+    """remove_ind treats leaves in a branch of its own: a leaf carrying the index
+    must lose every cached key that a leaf can hold and that depends on the sliced set."""
+    leafkeys = {k for k, e in g.items() if k != "centrality" and leaf_status(e["func"]) == "dep"}
+    need = leafkeys & sl
+    C.require({"legs", "size"} <= need, f"leaf-held slice-dependent keys not recognised: {sorted(need)}")
+    branches = [n for n in walk_local(ri.node) if isinstance(n, ast.If) and _is_len1_test(n.test)]
+    C.require(branches, "remove_ind: leaf branch (len(node) == 1) not found")
+    accesses = C.info_key_accesses(ri)
+    for br in branches:
+        inside = set()
+        for st in br.body:
+            inside.update(id(x) for x in ast.walk(st))
+        whole = False
+        for call, res in ctx.r.calls_in(ri):
+            if id(call) in inside and any(_whole_reset(ctx, c) for c in res.callees):
+                whole = True
+        for n in walk_local(ri.node):
+            if id(n) in inside and isinstance(n, ast.Call) and isinstance(n.func, ast.Attribute) \
+                    and n.func.attr == "clear" and C.is_info_entry(n.func.value, C.info_aliases(ri)):
+                whole = True
+        key = ctx.key(ri, "C02-LISTS", "leaf")
+        if whole:
+            r.ok(key, C.loc(ri, br), "sliced leaf: whole cache entry reset", leaf_keys=sorted(need))
+            continue
+        D = set()
+        for kind, k, nodeexpr, n, val, keyexpr in accesses:
+            if id(n) not in inside or kind not in ("pop", "del", "store"):
+                continue
+            ks = [k] if isinstance(k, str) else (C.loop_key_values(ctx, ri, keyexpr, n) or [])
+            D.update(ks)
+        missing = sorted(need - D)
+        if missing:
+            for m in missing:
+                r.violation(f"{key}::{m}", C.loc(ri, br),
+                            f"sliced leaf keeps its cached '{m}', which depends on the sliced set "
+                            f"(leaf branch drops only {sorted(D)})")
+        else:
+            r.ok(key, C.loc(ri, br), "sliced leaf: every slice-dependent leaf key dropped",
+                 dropped=sorted(D))
+
+
 def rule_lists(ctx):
-    r = RuleResult("C02-LISTS", "invalidation lists are dependency-closed", 2)
+    r = RuleResult("C02-LISTS", "invalidation lists are dependency-closed", 3)
     tc = tree_class(ctx)
     g = deps_graph(ctx)
     reg = set(registry(ctx)) | set(g)
@@ -305,6 +394,7 @@ def rule_lists(ctx):
         r.ok(key, ri.loc, "U ∪ D covers every slice-dependent key",
              deleted=sorted(D), updated=sorted(U),
              exempt_by_computation=sorted(reg - sl))
+    _leaf_branch_instances(ctx, r, ri, g, sl)
     rc = tc.lookup("reset_contraction_indices")
     C.require(rc is not None, "reset_contraction_indices not found")
     D2, _ = popped_keys(ctx, rc)
@@ -654,6 +744,46 @@ def rule_cores(ctx):
     return r
 
 
+def rule_corekey(ctx):
+    """The per-tree memo of compiled contractors (``contraction_cores``) is looked up
+    with a key built from the options: every option that is forwarded to the builder
+    must be carried by the key itself (tuple membership), not through a projection
+    such as a name or a hash, or a second request with different options executes
+    the contractor compiled for the first one."""
+    from .c13 import _carriers
+    r = RuleResult("C02-COREKEY", "contractor memo key carries every forwarded option", 1)
+    for f in tree_funcs(ctx, False):
+        if f.cls is None:
+            continue
+        for n in walk_local(f.node):
+            if not isinstance(n, ast.Assign) or not isinstance(n.value, ast.Call):
+                continue
+            tg = [t for t in n.targets if isinstance(t, ast.Subscript) and
+                  isinstance(t.value, ast.Attribute) and t.value.attr == "contraction_cores"]
+            if not tg:
+                continue
+            keyexpr = tg[0].slice
+            inj, lossy = _carriers(ctx, f, keyexpr)
+            build = n.value
+            fwd = []
+            for a in list(build.args) + [k.value for k in build.keywords]:
+                for x in ast.walk(a):
+                    if isinstance(x, ast.Name) and x.id in f.params and x.id != "self" \
+                            and x.id not in fwd:
+                        fwd.append(x.id)
+            missing = [p_ for p_ in fwd if p_ not in inj]
+            key = ctx.key(f, "C02-COREKEY")
+            if missing:
+                r.violation(key, C.loc(f, n), f"options {missing} are forwarded to "
+                            f"{dotted(build.func)} but reach the memo key only through "
+                            f"{sorted(lossy) or 'nothing'}: two requests differing in them share "
+                            "one compiled contractor", key=C.unparse(keyexpr, 120))
+            else:
+                r.ok(key, C.loc(f, n), "every forwarded option is a member of the key tuple",
+                     forwarded=fwd)
+    return r
+
+
 # ---- NODE ------------------------------------------------------------------
 
 
@@ -772,8 +902,142 @@ def rule_pure(ctx):
                         "inplace=True): with inplace=False the original tree is left in a "
                         "half-updated state", stmt=C.unparse(C.enclosing_stmt(f, bad.node), 80))
         else:
-            r.ok(key, f.loc, f"all state changes go through `{wname}`")
+            stale = _stale_reads_of_original(ctx, f, wname, orig) if wname != orig else []
+            if stale:
+                n, what, via = stale[0]
+                r.violation(key, C.loc(f, n), f"`{what}` consults the original `{orig}` after the "
+                            f"working tree `{wname}` was changed ({via}): with inplace=False "
+                            "(or after reslice) the two differ, so the figures describe the wrong tree",
+                            stmt=C.unparse(C.enclosing_stmt(f, n), 80))
+            else:
+                r.ok(key, f.loc, f"all state changes and later reads go through `{wname}`")
     return r
+
+
+def transformation_state(ctx):
+    """Attributes that tree methods other than the constructors write or mutate on
+    their own object, minus lazily memoised ones (every write inside
+    ``if <obj>.<attr> is None:``)."""
+    if hasattr(ctx, "_c02_state"):
+        return ctx._c02_state
+    state, memo_only = set(), {}
+    for f in tree_funcs(ctx, False):
+        if f.cls is None or f.name in ("__init__", "set_state_from", "copy", "__setstate__"):
+            continue
+        own = ctx.effects.self_like(f)
+        for a in ctx.effects.direct(f)["access"]:
+            if a.recv in own and a.kind in ("write", "mutate"):
+                state.add(a.attr)
+                guarded = False
+                cur = f.module.parents.get(a.node)
+                while cur is not None and cur is not f.node:
+                    if isinstance(cur, ast.If) and C.unparse(cur.test) == f"{a.recv}.{a.attr} is None":
+                        guarded = True
+                    cur = f.module.parents.get(cur)
+                memo_only[a.attr] = memo_only.get(a.attr, True) and guarded
+    ctx._c02_state = {a for a in state if not memo_only.get(a)}
+    return ctx._c02_state
+
+
+def _memo_guarded(f, a):
+    """Access ``a`` in ``f`` is a write under ``if <recv>.<attr> is None:`` (lazy init)."""
+    cur = f.module.parents.get(a.node)
+    while cur is not None and cur is not f.node:
+        if isinstance(cur, ast.If) and C.unparse(cur.test) == f"{a.recv}.{a.attr} is None":
+            return True
+        cur = f.module.parents.get(cur)
+    return False
+
+
+def real_writes(ctx, func):
+    """Own-object attributes written or mutated by ``func`` and the same-family
+    methods it reaches, not counting lazy initialisation of a memo attribute."""
+    cache = ctx.__dict__.setdefault("_c02_real_writes", {})
+    if func.key in cache:
+        return cache[func.key]
+    eff = ctx.effects
+    out, seen, stack = set(), set(), [func]
+    while stack:
+        f = stack.pop()
+        if f.key in seen:
+            continue
+        seen.add(f.key)
+        own = eff.self_like(f)
+        for a in eff.direct(f)["access"]:
+            if a.recv in own and a.kind in ("write", "mutate") and not _memo_guarded(f, a):
+                out.add(a.attr)
+        for call, res in ctx.r.calls_in(f):
+            fn = call.func
+            recv = None
+            if isinstance(fn, ast.Attribute) and isinstance(fn.value, ast.Name):
+                recv = fn.value.id
+            elif dotted(fn) in ("map", "filter") and call.args and \
+                    isinstance(call.args[0], ast.Attribute) and isinstance(call.args[0].value, ast.Name):
+                recv = call.args[0].value.id
+            if recv in own:
+                for c in res.callees:
+                    if f.cls is None or c.cls is None or c.cls.is_subclass_of(f.cls) \
+                            or f.cls.is_subclass_of(c.cls):
+                        stack.append(c)
+    cache[func.key] = out
+    return out
+
+
+def _stale_reads_of_original(ctx, f, wname, orig):
+    """Mentions of ``orig`` that are reachable from a statement changing ``wname``."""
+    state = transformation_state(ctx)
+    fl = ctx.flow(f)
+    parents = f.module.parents
+    eff = ctx.effects
+    changing = {}
+    for call, res in ctx.r.calls_in(f):
+        fn = call.func
+        if isinstance(fn, ast.Attribute) and isinstance(fn.value, ast.Name) and fn.value.id == wname:
+            w = set()
+            for c in res.callees:
+                w |= real_writes(ctx, c) & state
+            if w:
+                cn = fl.cfg.containing(call, parents)
+                if cn is not None:
+                    changing.setdefault(cn.id, [f"{wname}.{fn.attr}()", set()])[1].update(w)
+    for a in eff.direct(f)["access"]:
+        if a.recv == wname and a.kind in ("write", "mutate") and a.attr in state:
+            cn = fl.cfg.containing(a.node, parents)
+            if cn is not None:
+                changing.setdefault(cn.id, [f"{wname}.{a.attr} written", set()])[1].add(a.attr)
+    if not changing:
+        return []
+    after = {}   # node -> {attr: first statement that changed it on some path to node}
+    for nid, (via, attrs) in changing.items():
+        for m in fl.cfg.reachable_from_succs(nid):
+            d = after.setdefault(m, {})
+            for a in attrs:
+                d.setdefault(a, via)
+    out = []
+    for n in walk_local(f.node):
+        if not (isinstance(n, ast.Name) and n.id == orig and isinstance(n.ctx, ast.Load)):
+            continue
+        cn = fl.cfg.containing(n, parents)
+        if cn is None or cn.id not in after:
+            continue
+        par = parents.get(n)
+        if isinstance(par, ast.Attribute):
+            gp = parents.get(par)
+            if isinstance(gp, ast.Call) and gp.func is par:
+                res = ctx.r.resolve_call(f, gp)
+                reads = set()
+                for c in res.callees:
+                    reads |= eff.transitive(c)["read"] & set(after[cn.id])
+                if reads:
+                    a0 = sorted(reads)[0]
+                    out.append((n, f"{orig}.{par.attr}() [reads {sorted(reads)[:4]}]", after[cn.id][a0]))
+            elif par.attr in after[cn.id]:
+                out.append((n, f"{orig}.{par.attr}", after[cn.id][par.attr]))
+        elif isinstance(par, ast.IfExp) and isinstance(par.test, ast.Name) and par.test.id == "inplace":
+            continue
+        else:
+            out.append((n, f"{orig} (passed on whole)", sorted(after[cn.id].values())[0]))
+    return out
 
 
 def rule_preproc(ctx):
@@ -843,5 +1107,5 @@ def rule_copy(ctx):
                         lambda i: True, 20)
 
 
-RULES = [rule_keys, rule_deps, rule_lists, rule_closure, rule_root, rule_cores, rule_node,
+RULES = [rule_keys, rule_deps, rule_lists, rule_closure, rule_root, rule_cores, rule_corekey, rule_node,
          rule_presurv, rule_pure, rule_copy, rule_preproc]
